@@ -85,6 +85,9 @@ func encodeVal(v reflect.Value) interface{} {
 
 // RecJSON returns the canonical JSON text of a record.
 func RecJSON(v interface{}) json.RawMessage {
+	if v == nil {
+		return json.RawMessage("null")
+	}
 	b, err := json.Marshal(EncodeRec(v))
 	if err != nil {
 		panic(err)
@@ -212,6 +215,9 @@ func decodeVal(tree interface{}, v reflect.Value) error {
 // EqualRec compares two records: nil slice == empty slice, floats bit for
 // bit, nil pointer != pointer to zero value.
 func EqualRec(a, b interface{}) bool {
+	if a == nil || b == nil {
+		return a == nil && b == nil // a row that was seen but not scanned
+	}
 	return equalVal(reflect.ValueOf(a), reflect.ValueOf(b))
 }
 
